@@ -208,18 +208,23 @@ func C18(c *Ctx) {
 		sh.Wide = append([]byte(nil), wide0...)
 		sh.scalars = []*edwards25519.Scalar{sh.S, sh.S2, sh.S}
 		sh.points = []*edwards25519.Point{sh.P, sh.Q, sh.P}
-		sh.tmplP = new(edwards25519.Point).ScalarBaseMult(sh.S2)
-		sh.tmplP.ScalarMult(sh.S, sh.tmplP)
-		sh.tmplP.VarTimeDoubleScalarBaseMult(sh.S, sh.tmplP, sh.S2)
-		sh.tmplP.MultiScalarMult(sh.scalars, sh.points)
-		sh.tmplP.VarTimeMultiScalarMult(sh.scalars, sh.points)
+		// the templates are warmed on private operands only: the shared objects must reach the
+		// concurrent phase untouched (whatever an operation does to an argument on first use
+		// has to happen there, under several goroutines)
+		ps, pp, pq := gen.LibScalar(k0), new(edwards25519.Point).Set(pcB.P), new(edwards25519.Point).Add(libA, edwards25519.NewIdentityPoint())
+		pe := new(field.Element).Set(sharedE0)
+		sh.tmplP = new(edwards25519.Point).ScalarBaseMult(ps)
+		sh.tmplP.ScalarMult(ps, sh.tmplP)
+		sh.tmplP.VarTimeDoubleScalarBaseMult(ps, sh.tmplP, ps)
+		sh.tmplP.MultiScalarMult([]*edwards25519.Scalar{ps, ps}, []*edwards25519.Point{pp, pq})
+		sh.tmplP.VarTimeMultiScalarMult([]*edwards25519.Scalar{ps, ps}, []*edwards25519.Point{pp, pq})
 		sh.tmplP.Bytes()
 		sh.tmplP.BytesMontgomery()
-		sh.tmplS = new(edwards25519.Scalar).MultiplyAdd(sh.S, sh.S2, sh.S)
+		sh.tmplS = new(edwards25519.Scalar).MultiplyAdd(ps, ps, ps)
 		sh.tmplS.Invert(sh.tmplS)
 		sh.tmplS.Bytes()
-		sh.tmplE = new(field.Element).Invert(sh.E)
-		sh.tmplE.SqrtRatio(sh.tmplE, sh.F)
+		sh.tmplE = new(field.Element).Invert(pe)
+		sh.tmplE.SqrtRatio(sh.tmplE, pe)
 		sh.tmplE.Bytes()
 		for i := 0; i < 12; i++ {
 			sh.longS = append(sh.longS, []*edwards25519.Scalar{sh.S, sh.S2}[i%2])
